@@ -67,7 +67,10 @@ PLANNED = {}
 
 MATRIX = (" The core selection is also run under every configuration of the matrix worker kind (lxc / remote / serial / mixed) x pool_scope (every "
           "enumerated subset containing 'own') x slot binding (container, serial, remote slots). Deviation bounds are iterated level by level; the evidence "
-          "reports the bound completed per scenario (small scenarios: all choice sequences).")
+          "reports the bound completed per scenario (small scenarios: all choice sequences). Every pair of non-default run settings (scope, retries, "
+          "timeouts incl. the stock 3600 s, dry run, pool filter, slots, unset mode, lazy parsing) is run on a setup+leaf selection; previous jobs are "
+          "loaded from results.json files by the runner's own loader; worker sessions come from the real get_session over a login stand-in; one extra "
+          "scenario runs on the mini-suite customised through the user's overwrite config (an edge based on two objects).")
 ADDENDA = {
     "C01": MATRIX, "C02": MATRIX, "C03": MATRIX + " The reuse scope of the oracle follows pool_scope alone (worker / swarm / run).", "C04": MATRIX, "C08": MATRIX,
     "C07": " The same oracle is applied to the graph expanded on demand by a dry-run traversal (no test represented twice per worker).",
